@@ -30,7 +30,8 @@ def setup(register, COMMON_TB):
             "for NGF policies that bound comes from ngfPolicyAncestorsFull in graph/policy_ancestor.go: modelled (attach_all) and proved "
             "(C08_ancestor_limit_partial), not driven by this harness (unexported, other package); it holds for the foreign entries seen "
             "when the graph was built",
-            "entries of this controller in a previous status carry only the reference fields it writes (routes: no group/kind/port)",
+            "entries of this controller in a previous status carry the reference fields it writes, and for Routes in half of the cases also the CRD defaults an "
+            "API server adds to a parentRef (group gateway.networking.k8s.io, kind Gateway); never a port",
             "the computed entries of one resource have pairwise different references (one per parentRef / ancestor)",
             "an absent optional reference field equals the empty string (helpers.EqualPointers); mirrored in the model and in erase_entry",
         ],
